@@ -15,21 +15,26 @@ credits the write pool with the removed blobber's challenge value without debiti
   index bounds (`Good`);
 * `liability_backed_history_partial` — hence over any history without that branch `L + W₀ ≤ L₀ + W`, in particular
   liabilities never exceed the wallet if they did not at the start (`solvent_partial`);
+* `read_redeem_moves`, `read_redeem_overdraft`, `read_redeem_backed` — the read path: a redeemed marker of price `p`
+  debits the reader's pool by exactly `p ≤ balance`, credits the blobber's stake pool with at most `p`, and a marker
+  priced above the balance is refused outright (examples at the boundary: below, exactly at, one above, no pool);
 * `killed_replace_unbacked` / `liability_backed_false` — the negation witness (`W1` of Props/C13: liabilities grow by 50
   with the wallet unchanged), replayed on the real code by the fixed case fx-replace-killed (known finding).
 
 Not covered: miner, bridge, vesting and faucet contracts (other builders' models); within storagesc: block rewards
-(`blobber_block_rewards`), read markers, free and enterprise allocations.
+(`blobber_block_rewards`), free and enterprise allocations.
 -/
 namespace ZChain.Storage
 
 attribute [local irreducible] offer
 
-/-- indices an operation introduces are below `N` (only registrations and read-pool locks introduce indices) -/
+/-- indices an operation introduces are below `N` (only registrations, read-pool locks and read markers — which give a
+reader without a pool an empty one — introduce indices) -/
 def opBounded (N : Nat) : Op → Prop
   | .addBlobber i _ _ => i < N
   | .addValidator i => i < N
   | .rpLock j _ => j < N
+  | .readRedeem _ _ j _ => j < N
   | _ => True
 
 theorem updBlobbers_backed {N : Nat} {s s' : State} {k : Nat} {add rem : Option Nat} {rw cc dp : Nat}
@@ -123,6 +128,7 @@ theorem liability_backed_partial {N : Nat} {s s' : State} {op : Op} (g : Good N 
   | wpLock k j v => exact wpLock_backed h g
   | rpLock j v => exact rpLock_backed h hb g
   | rpUnlock j v => exact rpUnlock_backed h g
+  | readRedeem k i j p => exact readRedeem_backed h hb g
   | tick dt =>
     simp only [step] at h; cases h
     exact ⟨by unfold Backed L; simp only []; omega, g⟩
@@ -163,6 +169,7 @@ def safe09 (N : Nat) (s : State) : Op → Bool
   | .addBlobber i _ _ => decide (i < N)
   | .addValidator i => decide (i < N)
   | .rpLock j _ => decide (j < N)
+  | .readRedeem _ _ j _ => decide (j < N)
   | .update _ _ _ _ _ (some _) (some ri) _ _ _ _ => !isDead s ri
   | _ => true
 
@@ -171,6 +178,7 @@ theorem safe09_sound {N : Nat} {s : State} {op : Op} (h : safe09 N s op = true) 
   | addBlobber i c p => exact ⟨by simpa [safe09, opBounded] using h, fun x => x⟩
   | addValidator i => exact ⟨by simpa [safe09, opBounded] using h, fun x => x⟩
   | rpLock j v => exact ⟨by simpa [safe09, opBounded] using h, fun x => x⟩
+  | readRedeem k i j p => exact ⟨by simpa [safe09, opBounded] using h, fun x => x⟩
   | update k c value size ext add rem rw cc dp ds =>
     refine ⟨trivial, ?_⟩
     cases add with
@@ -238,6 +246,59 @@ theorem liability_backed_false :
   unfold Backed at this
   rw [killed_replace_unbacked.2.1, killed_replace_unbacked.2.2] at this
   omega
+
+/-! ### the read path (`read_pool_lock`, `read_pool_unlock`, `commit_blobber_read`) -/
+
+/-- **read_redeem_moves**: a redeemed read marker of price `p` takes exactly `p` out of the reader's pool (which held
+at least `p`), credits the blobber's stake pool with `credit sp p ≤ p` and leaves the wallet alone. -/
+theorem read_redeem_moves {s s' : State} {k i j p : Nat} (h : stepRel s (.readRedeem k i j p) s') :
+    ∃ sp, s.sps i = some sp ∧ p ≤ (s.rps j).getD 0 ∧ s'.rps j = some ((s.rps j).getD 0 - p) ∧
+      s'.sps i = some { sp with rewards := sp.rewards + credit sp p } ∧ credit sp p ≤ p ∧ s'.wallet = s.wallet := by
+  unfold stepRel at h; simp only [step] at h
+  unfold readRedeem at h
+  ok_branches h
+  rename_i sp hsp hlt
+  exact ⟨sp, hsp, by omega, Map.set_same _ _ _, Map.set_same _ _ _, credit_le _ _, rfl⟩
+
+/-- **read_redeem_overdraft**: a marker that costs more than the reader's pool holds (nothing, for a client without
+a pool) is never redeemed — not even in part. -/
+theorem read_redeem_overdraft {s s' : State} {k i j p : Nat} (hp : (s.rps j).getD 0 < p) : ¬ stepRel s (.readRedeem k i j p) s' := by
+  intro h
+  obtain ⟨_, _, hle, _⟩ := read_redeem_moves h
+  omega
+
+/-- **read_redeem_backed**: the liabilities do not grow at a redeemed marker (the wallet does not move). -/
+theorem read_redeem_backed {N : Nat} {s s' : State} {k i j p : Nat} (g : Good N s) (hj : j < N)
+    (h : stepRel s (.readRedeem k i j p) s') : L N s' ≤ L N s := by
+  have hb := (liability_backed_partial g (op := .readRedeem k i j p) hj h (fun x => x)).1
+  have hw := (read_redeem_moves h).choose_spec.2.2.2.2.2
+  unfold Backed at hb; omega
+
+/-- blobbers 0 and 1 (blobber 0 staked with the minimum), allocation 0 of client 3 on both, client 2 locks 300 into
+its read pool -/
+def scriptRead : List Op :=
+  [.addBlobber 0 1000000000000 10, .addBlobber 1 1000000000000 10, .stake false 0 1 10000000000,
+   .newAlloc 3 1 GBs 1000 [0, 1], .rpLock 2 300]
+
+def WR : State := (runB 6 init scriptRead).getD init
+
+/-- non-vacuity, the three regimes at the boundary: a marker priced below the balance (100 of 300) and one priced
+exactly at it are redeemed — pool −price, rewards +price, liabilities unchanged —; one token more is refused; a client
+without a pool redeems a free marker only (and gets an empty pool). -/
+example : (runB 6 init scriptRead).isSome = true ∧ L 6 WR = 10000001300 ∧ WR.wallet = 10000001300 ∧ WR.rps 2 = some 300 := by
+  decide +kernel
+example : stepOk WR (.readRedeem 0 0 2 100) = true ∧ (after WR (.readRedeem 0 0 2 100)).rps 2 = some 200 ∧
+    ((after WR (.readRedeem 0 0 2 100)).sps 0).map (·.rewards) = some 100 ∧ L 6 (after WR (.readRedeem 0 0 2 100)) = L 6 WR := by
+  decide +kernel
+example : stepOk WR (.readRedeem 0 0 2 300) = true ∧ (after WR (.readRedeem 0 0 2 300)).rps 2 = some 0 ∧
+    ((after WR (.readRedeem 0 0 2 300)).sps 0).map (·.rewards) = some 300 ∧ L 6 (after WR (.readRedeem 0 0 2 300)) = L 6 WR := by
+  decide +kernel
+example : stepOk WR (.readRedeem 0 0 2 301) = false ∧ stepOk WR (.readRedeem 0 0 1 1) = false ∧
+    stepOk WR (.readRedeem 0 0 1 0) = true ∧ (after WR (.readRedeem 0 0 1 0)).rps 1 = some 0 := by
+  decide +kernel
+/-- a blobber staked below the minimum is credited nothing: the price stays in the wallet, owed to nobody -/
+example : stepOk WR (.readRedeem 0 1 2 300) = true ∧ L 6 (after WR (.readRedeem 0 1 2 300)) + 300 = L 6 WR := by
+  decide +kernel
 
 theorem killed_replace_is_excluded : replacesDead W9 opReplaceKilled := by
   show isDead W9 1 = true
